@@ -314,8 +314,10 @@ class Run:
             self.count_case(tuple(seq), nontrivial(seq) if nontrivial else True)
             self.cov["traces_validated_against_impl"] += 1
             for r in rows:
-                self.hist(f"{name}:op:{r[0].split(' ')[0]}")
-                self.hist(f"{name}:impl:{'err' if r[1] == 'err' else 'panic' if r[1] in ('panic', 'abort') else 'ok'}")
+                w = r[0].split(' ')
+                self.hist(f"{name}:op:{' '.join(w[:2]) if w[0] in ('rln', 'tree', 'op', 'opu', 'ffi', 'meta') and len(w) > 1 else w[0]}")
+                cls = r[1] if r[1] in ('err', 'panic', 'abort', 'accept', 'reject-false', 'reject-err', 'n/a', 'true', 'false') else 'ok'
+                self.hist(f"{name}:impl:{cls}")
             bad_spec = next((i for i, r in enumerate(rows) if "n/a" not in (r[4], r[3]) and r[4] != r[3]), None)
             bad_model = next((i for i, r in enumerate(rows) if r[1] != "n/a" and r[1] != r[2]), None)
             if bad_spec is not None:
@@ -417,6 +419,31 @@ class Run:
                 if detail and detail.startswith("DIFFERENT"):
                     self.violation({"property": self.pid, "kind": "impl-vs-spec", "finding": f["id"], "detail": detail,
                                     "witness": f.get("witness")})
+
+    def confirm_witnesses(self, canon=None):
+        """replay the recorded witnesses of every open finding of this property on the implementation:
+        still failing in the recorded way -> KNOWN-FINDING; behaving as specified -> note (possibly fixed);
+        failing differently -> violation"""
+        zkh = self.harness()
+
+        def runner(f):
+            diff = []
+            same = 0
+            for w in f.get("witnesses", []):
+                impl = run_impl(zkh, w["ops"])
+                if canon:
+                    impl = [canon(l, x) for l, x in zip(w["ops"], impl)]
+                got = impl[w["at"]]
+                if got == w["observed"]:
+                    same += 1
+                elif got != w.get("ideal"):
+                    diff.append({"ops": w["ops"][-2:], "recorded": w["observed"][:120], "now": got[:120]})
+            if diff:
+                return False, "DIFFERENT: " + json.dumps(diff[:2])
+            if same == 0:
+                return False, "every recorded witness now behaves as specified"
+            return True, ""
+        self.confirm_findings(runner)
 
     # --- finish
     def finish(self):
